@@ -34,6 +34,11 @@ def random_reader_case(rng, max_blocks=4, small=True):
     hop = rng.choice((None, block, rng.randint(1, block)))
     nsamples = rng.choice((0, 0, rng.randint(1, max(1, block - 1)), block, rng.randint(0, max_blocks * block),
                            rng.randint(0, max_blocks * block), 2 * block, 2 * block + 1))
+    magic = None
+    if rng.random() < 0.05:
+        # the raw audio IS a complete wav-file image (content that looks like something else)
+        magic = "wav"
+        nsamples = max(nsamples, -(-rng.randint(46, 90) // (width * channels)))
     mr_mode = rng.random()
     if mr_mode < 0.4:
         max_read_samples = None
@@ -51,13 +56,17 @@ def random_reader_case(rng, max_blocks=4, small=True):
             bfrac = max(bfrac, 0)
     return dict(bfrac=bfrac, hfrac=hfrac, width=width, channels=channels, rate=rate, block=block, hop=hop, nsamples=nsamples,
                 max_read_samples=max_read_samples, kind=rng.choice(SOURCE_KINDS), extra_reads=rng.randint(1, 5),
-                record=rng.random() < 0.3, seed=rng.getrandbits(32))
+                record=rng.random() < 0.3, seed=rng.getrandbits(32), magic=magic)
 
 
 def audio_of(case):
     import random
 
-    return random.Random(case["seed"]).randbytes(case["nsamples"] * case["width"] * case["channels"])
+    from .gen import audio as A
+
+    if case.get("magic") == "wav":
+        return A.wav_image(random.Random(case["seed"]), case["nsamples"] * case["width"] * case["channels"])
+    return A.random_pcm(random.Random(case["seed"]), case["nsamples"], case["width"], case["channels"])
 
 
 def effective_data(case, data):
